@@ -81,8 +81,8 @@ def check(run, P):
     run.rule("C13.shared", "Fortran maps share one generator; Python forced prefixes "
              "do not overlap", minimum=4)
     run.rule("C13.reserved", "no attribute defined by the Python templates starts "
-             "with the global-variable prefix; Fortran user locals get lploc_ "
-             "unless they start with dagrt_", minimum=2)
+             "with the global-variable prefix; Fortran user locals get lploc_ and "
+             "only the generator's own names are exempt", minimum=3)
     run.rule("C13.storage", "both name managers dispatch on is_state_variable; its "
              "tests are left-anchored and cover the names set_up() stores", minimum=5)
     run.rule("C13.case", "the Fortran name path folds case before uniquifying",
@@ -92,6 +92,7 @@ def check(run, P):
     _prefix(run, P)
     _memo(run, P)
     _shared(run, P)
+    _no_consumer_cache(run, P)
     _reserved(run, P)
     _storage(run, P)
     _case_length(run, P)
@@ -435,6 +436,23 @@ def _memo(run, P):
            construct="absent key -> store the new name under the same key, then return it",
            why="a name returned without being stored is generated afresh next time")
     init = P.func(f"{UTILS}.KeyToUniqueNameMap.__init__")
+    # pre-seeded identifiers are made known to the generator in use, own or passed in
+    from ..engine.cfg import CFG, walk_fragment
+    gi = CFG(init.node)
+    st = init.params[1]
+    gen = init.params[4] if len(init.params) > 4 else "name_generator"
+    regs = [n for n in gi.nodes if n.kind == "for" and norm(n.ast.iter) in (f"{st}.values()",)
+            and any(isinstance(x, ast.Call) and dotted(x.func) == f"{gen}.add_name"
+                    for x in ast.walk(n.ast))]
+    wrap = [n for n in gi.nodes if n.kind == "stmt" and isinstance(n.ast, ast.Assign)
+            and any(dotted(t) == "self._generator" for t in n.ast.targets)]
+    ok = bool(regs) and bool(wrap) and not gi.always_preceded(wrap, regs)
+    run.ob("C13.memo", init, regs[0].ast if regs else init.node, ok,
+           construct=f"for <name> in {st}.values(): {gen}.add_name(<name>) on every path to the "
+                     f"generator's use, whichever generator it is",
+           why="registered only with a generator the map creates itself, the predefined "
+               "names of a map that shares a generator (dagrt_t, dagrt_dt of the Fortran "
+               "global map) can be handed out a second time")
     src = ast.unparse(init.node)
     run.ob("C13.memo", init, init.node, "self._dict = dict(start)" in src,
            construct="the start table is copied (self._dict = dict(start))",
@@ -476,6 +494,45 @@ def _memo(run, P):
                    why="a cache that survives clear_locals hands a later phase the "
                        "identifier of an earlier phase's variable while the fresh "
                        "local map gives the same identifier to another name")
+
+
+def _no_consumer_cache(run, P):
+    """Classes that hold a name manager do not remember its answers: the answers
+    change when the manager's local map is reset."""
+    n = 0
+    for modname in ("dagrt.codegen.expressions", "dagrt.codegen.python"):
+        m = P.module(modname)
+        for c in m.classes.values():
+            if c.name.endswith("NameManager"):
+                continue
+            holds = any(isinstance(x, ast.Attribute) and x.attr == "_name_manager"
+                        for meth in c.methods.values() for x in ast.walk(meth.node))
+            if not holds:
+                continue
+            bad = []
+            for meth in c.methods.values():
+                tainted = set()
+                for x in ast.walk(meth.node):
+                    if isinstance(x, ast.Assign) and len(x.targets) == 1 and isinstance(x.targets[0], ast.Name) \
+                            and "self._name_manager" in ast.unparse(x.value):
+                        tainted.add(x.targets[0].id)
+                for x in ast.walk(meth.node):
+                    if isinstance(x, ast.Assign) and any(
+                            isinstance(t, ast.Subscript) and (dotted(t.value) or "").startswith("self.")
+                            for t in x.targets):
+                        v = ast.unparse(x.value)
+                        if "self._name_manager" in v or any(
+                                isinstance(y, ast.Name) and y.id in tainted for y in ast.walk(x.value)):
+                            bad.append((meth, x))
+            n += 1
+            run.ob("C13.memo", c, bad[0][1] if bad else c.node, not bad,
+                   construct=f"{c.name} keeps no table of identifiers it obtained from the name manager"
+                             + (f" (found in {bad[0][0].name}: {norm(bad[0][1], 60)})" if bad else ""),
+                   why="emit_def_begin resets the local map for every phase: an identifier "
+                       "remembered from an earlier phase is used for reads while the fresh "
+                       "map gives assignment targets another one")
+    if n == 0:
+        raise AnalysisError("no consumer of the Python name manager found")
 
 
 def _shared(run, P):
@@ -538,6 +595,17 @@ def _reserved(run, P):
     run.ob("C13.reserved", f, f.node, "lploc_" in src and "dagrt_" in src,
            construct="Fortran locals: lploc_ unless dagrt_ (reserved for the generator)",
            why="user locals must not take generator-reserved names")
+    # who decides that a name is the generator's own?
+    by_spelling = [n for n in ast.walk(f.node) if isinstance(n, ast.Call)
+                   and isinstance(n.func, ast.Attribute) and n.func.attr == "startswith"
+                   and dotted(n.func.value) == f.params[1] and n.args
+                   and (string_value(n.args[0]) or "").startswith("dagrt")]
+    run.ob("C13.reserved", f, by_spelling[0] if by_spelling else f.node, not by_spelling,
+           construct="FortranNameManager.name_local: names spelled dagrt_* are exempt from the user prefix",
+           why="the exemption is meant for the generator's own variables but is decided by "
+               "the spelling of the name: a user variable called dagrt_ierr, dagrt_state, "
+               "dagrt_nan or dagrt_refcnt_<y> maps to exactly the identifier the generator "
+               "reserves for itself")
 
 
 def _case_length(run, P):
